@@ -62,6 +62,7 @@ type ServerOpts struct {
 	Faults           []vchan.Fault  // installed on the server's end before Start
 	Spin             int            // Gosched iterations inside each channel operation (default 2)
 	RejectLF         bool           // the server's end refuses records containing a line feed (like channel.Line)
+	FreshRecvBuf     bool           // hand out a fresh slice per Recv (default: one reused, scribbled buffer)
 	Validator        func([]byte) error
 	RPCLog           jrpc2.RPCLogger
 }
@@ -91,6 +92,7 @@ func NewServerRig(c *vt.Ctx, ctrl *sched.Controller, o ServerOpts) *ServerRig {
 	r.Peer, r.End = vchan.NewPair("cli", "srv", r.Mon)
 	r.End.PipeLike = o.PipeLike
 	r.End.RejectLF = o.RejectLF
+	r.End.ReuseRecvBuf = !o.FreshRecvBuf
 	for _, f := range o.Faults {
 		r.End.AddFault(f)
 	}
